@@ -1,6 +1,7 @@
 from common import COMMON_ASSUME
 
 PROP = dict(
+    isolate=True,  # cases run in a worker process: a fatal error of the code under test becomes a "crash" event
     module="Streams",
     mc=[
         dict(module="MCStreams", cfg=dict(quick="MCStreams_quick.cfg", thorough="MCStreams_thorough.cfg"),
